@@ -107,6 +107,17 @@ CHECKS = {
          "bit-identical across payloads, in sse2 (debug+release) and core-simd builds."),
    note="Trusted: TLC, harness hid.rs. Oracle = agreement across payload runs; absolute values are decided by C01/C03/C06/C15/C16.",
    ref="5 (C08)"),
+ "C09": dict(
+   technique="TLA+ exact rotations over the ring Z[sqrt2,1/2] (Euler sequences defined from the variant spelling, Rodrigues on lattice axes), TLC-checked rotation theorems, replay with a stated tolerance; relational rebuild checks for extraction and near gimbal lock",
+   text=("Rot.tla defines elemental rotations by the right-hand rule, Rodrigues' formula on the 18 lattice axes and EulerMat(order) from the "
+         "letters of the variant name (Ex reversed); TLC checks every constructed matrix is in SO(3), the axis is fixed, angle addition, "
+         "periodicity, quaternion/matrix agreement on quarter turns and the intrinsic/extrinsic duality, then enumerates constructors and "
+         "24 orders x 45-degree angle triples (gimbal lock on the grid). The harness compares Quat/Mat3/Mat3A/Mat4/Affine3A/Mat2/Affine2 "
+         "and f64 forms with the exact ring values (tolerance 1e-5 / 1e-12, two orders above rounding and four below any convention "
+         "error), requires extraction to rebuild the rotation, and bounds to_euler's rebuild error by 64 eps/d at distances 1e-2..1e-7 "
+         "from the singularity; sse2 (debug+release), scalar-math, core-simd and libm builds."),
+   note="Trusted: TLC, harness rot.rs tolerance comparison. Off-grid angles and body-diagonal axes are covered only relationally; growth inside 1e-7 of gimbal lock undecided.",
+   ref="5 (C09)"),
 }
 
 PENDING = {}
